@@ -62,7 +62,7 @@ CLAIMED = {
                   "dispersion symbols are purely imaginary, the order-2 / order-4 Laplace symbols are -sum kappa^2 / +sum kappa^4 (real), so diffusion and hyper-diffusion with non-negative "
                   "coefficients have non-positive real part; a mode multiplied by E with |E|^2 <= 1 does not grow (equality for |E|^2 = 1); the Parseval-weighted sum over all modes is monotone; the "
                   "real inverse transform contracts (|Re c| <= |c|); the wave stepper conserves |v|^2 + (c rho)^2 |h|^2 per mode. Symbols tied to the code by exact correspondence at every stored mode.",
-             note="|exp z| = exp(Re z) is used, not proved; Parseval with the half-spectrum weights is proved in the C16 development (every D); full-matrix diffusion sign (kappa^T A kappa >= 0 for SPD A) is checked on the real code "
+             note="|exp z| = exp(Re z) is used, not proved; the end-to-end statement (mode factors of modulus <= 1 on the stored half spectrum of a real field => the discrete L2 norm does not grow, = 1 => preserved) is proved in every dimension with Parseval on the stored half spectrum (Steppers/L2Stability.v); full-matrix diffusion sign (kappa^T A kappa >= 0 for SPD A) is checked on the real code "
                   "(white noise, strong off-diagonals, dt up to 1e6, every single mode), as are exact norm / wave-energy preservation.",
              technique="Rocq proof (ordered-field reasoning on sums, complex modulus algebra) + exact symbol correspondence + norm oracle on the real code", design="§4 C11"),
  "C17": dict(text="Theorems: bin b collects exactly the modes with (2b-1)^2 <= 4|k|^2 < (2b+1)^2 (b = round|k|, half-open bins), bins are disjoint, every mode inside the Nyquist sphere lies in exactly one "
